@@ -64,7 +64,20 @@ let print_records (buf : Buffer.t) (out : z list list) : unit =
   print_string (Buffer.contents buf);
   print_newline ()
 
+(* a case the extracted model cannot finish within the limit (or within memory) answers the record 97:
+   "beyond the resources of the executable model" - the harness does not compare such a case with gmars
+   (the model appends to lists where gmars sends on a channel, so huge FOR expansions are quadratic here) *)
+exception Timeout
+let case_limit = try int_of_string (Sys.getenv "VERIF_MODEL_CASE_SECONDS") with _ -> 10
+
+let guarded (f : z list -> z list list) (c : z list) : z list list =
+  ignore (Unix.alarm case_limit);
+  let r = (try f c with Timeout | Out_of_memory | Stack_overflow -> [[z_of_int 97]]) in
+  ignore (Unix.alarm 0);
+  r
+
 let () =
+  Sys.set_signal Sys.sigalrm (Sys.Signal_handle (fun _ -> raise Timeout));
   let which = if Array.length Sys.argv > 1 then Sys.argv.(1) else "model" in
   let ic = if Array.length Sys.argv > 2 then open_in Sys.argv.(2) else stdin in
   let buf = Buffer.create 65536 in
@@ -82,7 +95,7 @@ let () =
     (try
       while true do
         let line = input_line ic in
-        print_records buf (f (parse_line line))
+        print_records buf (guarded f (parse_line line))
       done
     with End_of_file -> ())
   end
